@@ -696,6 +696,11 @@ theorem jitter_is_setting_in_force {Î² : Type} (settingAtCtor settingAtUse v : Î
 strategies): no Cholesky factor, prior or `q(u)` of an earlier call survives into the objective. -/
 theorem training_call_starts_from_empty_memo : Gen.StrategyEnv.trainingCallClearsMemo = true := by decide
 
+/-- **prior_call_leaves_memo** â€” `model(x*, prior=True)` returns the prior before the strategy's memo table is touched (in
+every mode): issued between `output = model(x)` and `mll(output, y)` it leaves the `p(u)` cached by the forward pass â€” the one
+`q(f)` was built from â€” in place for `kl_divergence()`. -/
+theorem prior_call_leaves_memo : Gen.StrategyEnv.priorCallLeavesMemo = true := by decide
+
 /-! ## the hypotheses are satisfiable (non-vacuity) -/
 
 /-- the model returns a `q*` on a concrete instance -/
